@@ -421,6 +421,12 @@ func parseReq(s string, idx int) *req {
 	default:
 		q.filename = fmt.Sprintf("manifest-%03d.json", idx)
 	}
+	if q.body == "big" {
+		// a valid request whose audit record exceeds 4 KiB (bufio / pipe buffer sizes): the file name is recorded as client.filename
+		q.body = "good"
+		q.filename = strings.Repeat("d", 250) + "/" + strings.Repeat("n", 4600) + "-" + q.filename
+		defer func() { q.body = "big" }()
+	}
 	switch {
 	case q.sigtype == "cosign" && q.body == "good":
 		q.payload = []byte(fmt.Sprintf(`{"schemaVersion":2,"mediaType":"application/vnd.oci.image.manifest.v1+json","config":{"mediaType":"application/vnd.oci.image.config.v1+json","digest":"sha256:%064x","size":2},"layers":[]}`, idx))
@@ -489,6 +495,10 @@ func Gen(w *bufio.Writer, seed uint64, tier string) {
 	emit("conc", "devfull", "none", 0, mix(16, validReq))
 	emit("conc", "ok", "nack", 0, mix(16, validReq))
 	emit("conc", "ok", "chanclose", 0, mix(8, validReq))
+	// records above 4 KiB from many clients at once: every line must still be one complete JSON object
+	bigReq := func() *req { q := validReq(); q.body = "big"; return q }
+	emit("conc", "ok", "none", 1, mix(48, bigReq))
+	emit("conc", "ok", "ok", 0, mix(24, bigReq))
 	emit("conc", "missingdir", "ok", 0, mix(16, validReq))
 	// 3. seeded random scenarios
 	n := 80
